@@ -75,7 +75,8 @@ pub fn stub_fast_hash_rec(input: &str) -> Hash {
 #[kani::stub(regex::Regex::new, crate::verif_shim::stub_regex_new)]
 #[kani::stub(regex::Regex::is_match, crate::verif_shim::stub_regex_is_match)]
 fn c01_flags() {
-    let m: u32 = kani::any::<u32>() & !KINDBITS;
+    let mut dr = crate::verif_shim::Draw::new();
+    let m: u32 = dr.u32() & !KINDBITS;
     let nf = mk(NetworkFilterMask::from_bits_retain(m), FilterPart::Simple(String::from("ab/cd/ef")));
     let g = nf.get_tokens();
     assert!(g.len() == 1, "P:flags.one_group");
@@ -131,19 +132,20 @@ pub fn stub_fast_hash_ab(input: &str) -> Hash {
 /// the same statement as C01.tok, through the real `get_tokens()` (real flag selection) and the real
 /// `tokenize_pooled` (what `Request` uses, real Unicode predicate)
 fn direct_get_tokens(la: bool, ra: bool) {
-    let fb: [u8; 4] = crate::verif_shim::any_bytes::<4>();
-    let fl: usize = kani::any();
+    let mut dr = crate::verif_shim::Draw::new();
+    let fb: [u8; 4] = dr.bytes::<4>();
+    let fl: usize = dr.usize();
     kani::assume(fl >= 1 && fl <= 4);
     let mut i = 0;
     while i < 4 {
         kani::assume(fb[i] < 0x80 && fb[i] >= 0x20 && fb[i] != b'*' && fb[i] != b'^' && !(fb[i] >= b'A' && fb[i] <= b'Z'));
         i += 1;
     }
-    let pre: u8 = kani::any();
-    let post: u8 = kani::any();
+    let pre: u8 = dr.u8();
+    let post: u8 = dr.u8();
     kani::assume(pre < 0x80 && pre >= 0x20 && post < 0x80 && post >= 0x20 && !(pre >= b'A' && pre <= b'Z') && !(post >= b'A' && post <= b'Z'));
-    let has_pre: bool = kani::any();
-    let has_post: bool = kani::any();
+    let has_pre: bool = dr.bool();
+    let has_post: bool = dr.bool();
     if la {
         kani::assume(!has_pre);
     }
@@ -251,13 +253,14 @@ gt_harness!(c01_gt_both, true, true);
 #[kani::stub(regex::Regex::new, crate::verif_shim::stub_regex_new)]
 #[kani::stub(regex::Regex::is_match, crate::verif_shim::stub_regex_is_match)]
 fn c01_dom() {
-    let m: u32 = kani::any::<u32>() & !KINDBITS;
-    let d: u64 = kani::any();
-    let s: [u64; 2] = crate::verif_shim::any_u64s::<2>();
-    let ns: usize = kani::any();
+    let mut dr = crate::verif_shim::Draw::new();
+    let m: u32 = dr.u32() & !KINDBITS;
+    let d: u64 = dr.u64();
+    let s: [u64; 2] = dr.u64s::<2>();
+    let ns: usize = dr.usize();
     kani::assume(ns <= 2);
-    let has_src: bool = kani::any();
-    let (http, https, tp): (bool, bool, bool) = (kani::any(), kani::any(), kani::any());
+    let has_src: bool = dr.bool();
+    let (http, https, tp): (bool, bool, bool) = (dr.bool(), dr.bool(), dr.bool());
     kani::assume(!(http && https));
     let mut nf = mk(NetworkFilterMask::from_bits_retain(m), FilterPart::Empty);
     nf.opt_domains = Some(vec![d]);
@@ -285,12 +288,13 @@ fn c01_dom() {
 #[kani::unwind(8)]
 #[kani::stub(crate::utils::fast_hash, stub_fast_hash)]
 fn c01_scheme() {
-    let m: u32 = kani::any::<u32>() & !KINDBITS;
+    let mut dr = crate::verif_shim::Draw::new();
+    let m: u32 = dr.u32() & !KINDBITS;
     let mask = NetworkFilterMask::from_bits_retain(m);
     // request scheme class: 0 http, 1 https, 2 ws/wss (neither flag; the constructor forces the websocket type)
-    let sc: u8 = kani::any();
+    let sc: u8 = dr.u8();
     kani::assume(sc < 3);
-    let tp: bool = kani::any();
+    let tp: bool = dr.bool();
     let rt = if sc == 2 { request::RequestType::Websocket } else { request::RequestType::Script };
     let req = mk_req(rt, sc == 0, sc == 1, tp, None);
     let ok = check_options(mask, None, None, None, None, &req);
@@ -344,23 +348,24 @@ fn bytes_eq(a: &str, b: &str) -> bool {
 ///  (<=) same pattern + same options => ids equal (cancellation happens)            [P]
 ///  (=>) ids equal and masks equal modulo the badfilter bit => all fields equal     [K: the id is a
 ///       djb2-style stream over modifier ++ domains ++ filter ++ hostname without delimiters]
-fn id_kernel<const N: usize>() {
-    let my: u32 = kani::any();
-    let a: [u8; N] = crate::verif_shim::any_bytes::<N>();
-    let al: usize = kani::any();
-    let b: [u8; N] = crate::verif_shim::any_bytes::<N>();
-    let bl: usize = kani::any();
-    let c: [u8; N] = crate::verif_shim::any_bytes::<N>();
-    let cl: usize = kani::any();
-    let d: [u8; N] = crate::verif_shim::any_bytes::<N>();
-    let dl: usize = kani::any();
+fn id_kernel<const N: usize>(with_mask_check: bool) {
+    let mut dr = crate::verif_shim::Draw::new();
+    let my: u32 = dr.u32();
+    let a: [u8; N] = dr.bytes::<N>();
+    let al: usize = dr.usize();
+    let b: [u8; N] = dr.bytes::<N>();
+    let bl: usize = dr.usize();
+    let c: [u8; N] = dr.bytes::<N>();
+    let cl: usize = dr.usize();
+    let d: [u8; N] = dr.bytes::<N>();
+    let dl: usize = dr.usize();
     let (fy, hy, fz, hz) = (sym_ascii(&a, al), sym_ascii(&b, bl), sym_ascii(&c, cl), sym_ascii(&d, dl));
-    let has_hy: bool = kani::any();
-    let has_hz: bool = kani::any();
-    let dy: u64 = kani::any();
-    let dz: u64 = kani::any();
-    let has_dy: bool = kani::any();
-    let has_dz: bool = kani::any();
+    let has_hy: bool = dr.bool();
+    let has_hz: bool = dr.bool();
+    let dy: u64 = dr.u64();
+    let dz: u64 = dr.u64();
+    let has_dy: bool = dr.bool();
+    let has_dz: bool = dr.bool();
     let bad = NetworkFilterMask::BAD_FILTER;
     let mask_y = NetworkFilterMask::from_bits_retain(my) & !bad;
     let mask_z = mask_y | bad;
@@ -386,28 +391,35 @@ fn id_kernel<const N: usize>() {
     if ids_eq {
         assert!(same, "K:badfilter-id-collision:id.equal_ids_imply_same_rule");
     }
-    // the id ignores nothing that matching depends on: the mask is part of it
-    let my2: u32 = kani::any();
-    let mut y2 = mk(NetworkFilterMask::from_bits_retain(my2) & !bad, FilterPart::Simple(String::from(fy)));
-    if has_hy {
-        y2.hostname = Some(String::from(hy));
-    }
-    if y2.mask != y.mask && !has_dy {
-        assert!(y2.get_id() != y.get_id(), "P:id.mask_is_part_of_id");
+    if with_mask_check {
+        // the id ignores nothing that matching depends on: the mask is part of it
+        let my2: u32 = dr.u32();
+        let mut y2 = mk(NetworkFilterMask::from_bits_retain(my2) & !bad, FilterPart::Simple(String::from(fy)));
+        if has_hy {
+            y2.hostname = Some(String::from(hy));
+        }
+        if y2.mask != y.mask && !has_dy {
+            assert!(y2.get_id() != y.get_id(), "P:id.mask_is_part_of_id");
+        }
+        core::mem::forget(y2);
     }
     kani::cover!(same && ids_eq, "W:id.cancelled");
     kani::cover!(!same && !ids_eq, "W:id.distinct");
     core::mem::forget(y);
     core::mem::forget(z);
-    core::mem::forget(y2);
 }
 #[kani::proof]
 #[kani::unwind(6)]
 fn c04_id() {
-    id_kernel::<2>();
+    id_kernel::<2>(false);
 }
 #[kani::proof]
 #[kani::unwind(7)]
 fn c04_id3() {
-    id_kernel::<3>();
+    id_kernel::<3>(false);
+}
+#[kani::proof]
+#[kani::unwind(6)]
+fn c04_id_mask() {
+    id_kernel::<1>(true);
 }
